@@ -77,13 +77,46 @@ def run(facts, rep, tier):
                    b.loc(a))
     rep.floor("C07.B", "assign_input_nodes call sites in inline/**", n_sites, 5)
     # ------------------------------------------------------------------ C07.F
+    CREATE = ("Graph::add_node_with_type", "inline_ops::inline_call", "inline_ops::inline_iterate")
+
+    def creating_helpers():
+        """helpers of inline/** every Ok return of which has passed through a node creator (e.g. an extracted copy branch)"""
+        out = set()
+        for n_, hb in facts.bodies.items():
+            if hb.crate != "ciphercore_base" or "/inline/" not in hb.file or hb.kind == "closure" or n_.endswith(CREATE):
+                continue
+            cs = [bb for bb, t in hb.calls() if not hb.is_cleanup(bb) and (callee_name(t) or "").endswith(CREATE)]
+            oks = C.ok_exit_blocks(hb)
+            if cs and oks and C.must_pass(hb, 0, oks, set(cs) | C.error_exit_blocks(hb), after=False):
+                out.add(n_)
+        return out
+
+    def bound_tests(body):
+        """blocks that test `ephemeral_context_mapping.contains_node(..)`, directly or through a `-> bool` predicate method"""
+        fl_ = Flow(facts, body)
+        out = []
+        for bb, t in body.calls():
+            if body.is_cleanup(bb):
+                continue
+            cn = callee_name(t) or ""
+            if cn.endswith("ContextMappings::contains_node"):
+                if body.id.endswith("unassign_nodes") or (fl_.trail(t["args"][0][1]) or [""])[-1] == "ephemeral_context_mapping":
+                    out.append(bb)
+                continue
+            hb = facts.bodies.get(cn)
+            if hb is not None and hb.kind != "closure" and hb.local_ty(0) == "bool" and "/inline/" in hb.file:
+                hfl = Flow(facts, hb)
+                if any((callee_name(ht) or "").endswith("ContextMappings::contains_node") and not hb.is_cleanup(hbb)
+                       and (hfl.trail(ht["args"][0][1]) or [""])[-1] == "ephemeral_context_mapping" for hbb, ht in hb.calls()):
+                    out.append(bb)
+        return out
+
     r = facts.body("inline::inline_ops::recursively_inline_graph")
     if rep.anchor("C07.F", "inline::inline_ops::recursively_inline_graph", r):
-        creators = [bb for bb, t in r.calls() if not r.is_cleanup(bb) and (callee_name(t) or "").endswith(
-            ("Graph::add_node_with_type", "inline_ops::inline_call", "inline_ops::inline_iterate"))]
+        ch = creating_helpers()
+        creators = [bb for bb, t in r.calls() if not r.is_cleanup(bb) and ((callee_name(t) or "").endswith(CREATE) or callee_name(t) in ch)]
         flr = Flow(facts, r)
-        cont = [bb for bb, t in r.calls() if not r.is_cleanup(bb) and (callee_name(t) or "").endswith("ContextMappings::contains_node")
-                and (flr.trail(t["args"][0][1]) or [""])[-1] == "ephemeral_context_mapping"]
+        cont = bound_tests(r)
         lp = None
         for h, blocks in C.loops(r):
             if creators and creators[0] in blocks and (lp is None or len(blocks) > len(lp[1])):
@@ -115,7 +148,7 @@ def run(facts, rep, tier):
                    "a bound Input node is skipped (it stands for the caller's argument)", r.loc(h))
     u = facts.body("inline::inline_ops::unassign_nodes")
     if rep.anchor("C07.F", "inline::inline_ops::unassign_nodes", u):
-        cont = [bb for bb, t in u.calls() if not u.is_cleanup(bb) and (callee_name(t) or "").endswith("ContextMappings::contains_node")]
+        cont = bound_tests(u)
         rem = [bb for bb, t in u.calls() if not u.is_cleanup(bb) and (callee_name(t) or "").endswith(
             ("remove_ephemeral_node", "ContextMappings::remove_node"))]
         loops = C.loops(u)
@@ -130,6 +163,8 @@ def run(facts, rep, tier):
             fl = Flow(facts, u)
             src = set()
             for c in cont:
-                src |= {o[2] for o in fl.origins(u.term(c)["args"][1], (c, None)) if o[0] == "call"}
+                for a_ in u.term(c)["args"]:
+                    if a_[0] != "k" and "graphs::Node" in u.local_ty(a_[1][0]):
+                        src |= {o[2] for o in fl.origins(a_, (c, None)) if o[0] == "call"}
             rep.ob("C07.F", "unassign-iterates-all-nodes", src == {"graphs::Graph::get_nodes"},
                    "unassign_nodes tests every node of graph.get_nodes() (%s)" % sorted(src), u.loc())
